@@ -899,6 +899,10 @@ int32_t tls13WritePreSharedKey(ssl_t *ssl,
 
     psTracePrintExtensionCreate(ssl, EXT_PRE_SHARED_KEY);
 
+    /* So that the failure path can release whatever is in use. */
+    Memset(&idBuf, 0, sizeof(idBuf));
+    Memset(&binderBuf, 0, sizeof(binderBuf));
+
     psDynBufAppendOctets(extBuf, extensionType, 2);
     psDynBufInit(ssl->hsPool, &pskBuf, 64);
 
@@ -1016,6 +1020,10 @@ int32_t tls13WritePreSharedKey(ssl_t *ssl,
     return PS_SUCCESS;
 
 out_internal_failure:
+    /* Releasing a detached or never used buffer is harmless. */
+    psDynBufUninit(&idBuf);
+    psDynBufUninit(&binderBuf);
+    psDynBufUninit(&pskBuf);
     ssl->err = SSL_ALERT_INTERNAL_ERROR;
     return MATRIXSSL_ERROR;
 }
@@ -1194,6 +1202,7 @@ int32_t tls13WritePskKeyExchangeModes(ssl_t *ssl,
     modes = psDynBufDetachPsSize(&modesBuf, &modesLen);
     if (modes == NULL)
     {
+        psDynBufUninit(&buf);
         goto out_internal_failure;
     }
     psDynBufUninit(&modesBuf);
